@@ -58,6 +58,9 @@ def instances(tier):
             if dim == 2 and quick and order == 5:
                 continue
             out.append(dict(id="controller-%s-dim%d" % (nm, dim), kind="controller", cls=nm, shape=[dim], budget=b))
+    for nf in ("inf", "nan"):
+        out.append(dict(id="controller-nonfinite-%s-RK45CKSolver" % nf, kind="controller", cls="RK45CKSolver", shape=[1], nonfinite=nf, budget=b))
+        out.append(dict(id="controller-implicit-aware-nonfinite-%s-RadauIIA5" % nf, kind="controller_implicit", cls="RadauIIA5", shape=[1], nonfinite=nf, budget=b))
     out.append(dict(id="controller-history-HeunEulerSolver", kind="controller_history", cls="HeunEulerSolver", shape=[1], budget=b))
     for meth in ("RK45", "richardson:EulerSolver", "richardson:HeunEulerSolver"):
         for leg in (False, True):
@@ -206,6 +209,9 @@ def _controller(c, inst):
     integ = _mk(c, cls, shape)
     y = c.array([c.real("y%d" % i) for i in range(n)])
     e = c.array([c.real("e%d" % i) for i in range(n)])
+    if inst.get("nonfinite"):
+        # the error estimate of an overflowed trial step: not finite
+        e = c.array([float(inst["nonfinite"])] * n) if c.symbolic else np.array([float(inst["nonfinite"])] * n)
     dY = c.array([c.real("d%d" % i) for i in range(n)])
     dT = c.real("dT")
     c.assume(dT != 0)
@@ -217,7 +223,8 @@ def _controller(c, inst):
     sd = integ.solver_dict
     for k in ("epsilon_last", "epsilon_last_last", "system_scaling"):
         sd.pop(k, None)
-    sd.update(dict(initial_state=y, diff=e, timestep=dT, atol=atol, rtol=rtol, dState=dY, order=float(integ.order), safety_factor=0.8))
+    # (safety_factor, order: the values the integrator's own constructor put there)
+    sd.update(dict(initial_state=y, diff=e, timestep=dT, atol=atol, rtol=rtol, dState=dY))
     if inst["kind"] == "controller_implicit":
         sd.update(dict(niter0=0, niter1=0, newton_prec0=0.0, newton_prec1=0.0))
         from desolver.integrators.utilities import implicit_aware_update_timestep
@@ -229,6 +236,10 @@ def _controller(c, inst):
         return
     new_dt, redo = r
     c.note("redo", bool(redo))
+    if inst.get("nonfinite"):
+        c.check("c05.nonfinite_error_estimate_is_rejected", bool(redo), info=dict(estimate=inst["nonfinite"], cls=inst["cls"]))
+        c.check("c05.retry_after_nonfinite_estimate_is_smaller", c.all([c.lt(0, new_dt * dT), c.lt(new_dt * new_dt, dT * dT)]) if not isinstance(new_dt, float) or new_dt == new_dt else False)
+        return
     # scaled error norm^2 = sum (e_i / (atol + rtol*max(|y_i|, |dY_i/dT|)))^2 ; expressed without sqrt
     scal = []
     for yi, di in zip(flat(c, y), flat(c, dY)):
